@@ -1,0 +1,24 @@
+//go:build verif
+
+// Contracts for deductive verification (read as text by /verif/engine; this
+// file is never compiled into the package: it is comment-only and guarded
+// by the build tag verif).
+
+package version
+
+// C19: a version attribute set is equal to another exactly when the
+// underlying attr.Set compares equal; a clone owns its map.
+
+//@ lemma AttrSet.Equal.equivalence
+//@   vars a, b, c AttrSet
+//@   unfold AttrSet.Equal
+//@   ensures a.Equal(a)
+//@   ensures a.Equal(b) == b.Equal(a)
+//@   ensures imp(a.Equal(b) && b.Equal(c), a.Equal(c))
+//@   property C19
+
+//@ func AttrSet.Clone
+//@   ensures result.set.Mask == s.set.Mask && result.set.attrBits == s.set.attrBits && fresh(result.set.attrs)
+//@   ensures forall(k, 0, 256, has(result.set.attrs, uint8(k)) == has(s.set.attrs, uint8(k)) &&
+//@                  imp(has(s.set.attrs, uint8(k)), result.set.attrs[uint8(k)] == s.set.attrs[uint8(k)]))
+//@   property C19
